@@ -11,6 +11,8 @@ import (
 	"github.com/plgd-dev/go-coap/v3/message/codes"
 	"github.com/plgd-dev/go-coap/v3/message/pool"
 	"github.com/plgd-dev/go-coap/v3/mux"
+	"github.com/plgd-dev/go-coap/v3/net/responsewriter"
+	udpClient "github.com/plgd-dev/go-coap/v3/udp/client"
 )
 
 // C17 — router dispatches to a longest matching route, else the default.
@@ -276,6 +278,11 @@ func c17Run(e *Env) {
 		}
 		return c
 	}
+	viaGlue := t.Chance(1, 2)
+	glue := mux.ToHandler[*udpClient.Conn](r)
+	if viaGlue {
+		e.Probe("dispatch.throughToHandler")
+	}
 	runOp := func(ti int, o op) {
 		switch o.kind {
 		case 1:
@@ -316,7 +323,12 @@ func c17Run(e *Env) {
 			}
 			d := &c17Dispatch{task: ti, path: path, call: tick(), handler: -1}
 			byMsg[msg] = d
-			r.ServeCOAP(c17RW{}, &mux.Message{Message: msg, RouteParams: new(mux.RouteParams)})
+			if viaGlue {
+				// the way options.WithMux plugs a router into a connection
+				glue(responsewriter.New(pool.NewMessage(context.Background()), (*udpClient.Conn)(nil)), msg)
+			} else {
+				r.ServeCOAP(c17RW{}, &mux.Message{Message: msg, RouteParams: new(mux.RouteParams)})
+			}
 			d.ret = tick()
 			if d.handler >= 0 {
 				d.pattern = handlerOwner[d.handler]
@@ -396,6 +408,9 @@ func c17Run(e *Env) {
 					}
 				}
 			}
+		}
+		if d.pattern == "" && d.handler >= 0 && len(d.vars) != 0 {
+			e.Violate("C17.R4", "route-variables-differ:default-handler", "path %q went to the default handler with route variables %v (nothing matched, so there are none)", d.path, d.vars)
 		}
 		consistent := false
 		multi := false
